@@ -204,7 +204,7 @@ def canon_spec(index, seed):
            {"op": "compile", "c": 0, "of": 2, "uri": "c.feature"},
            {"op": "compile", "c": 0, "of": 0, "uri": "late.feature"}]
     return {"scenario": "canon", "prop": "C11", "labels": [name, ["stream-wiring", "readme-wiring", "default-wiring", "attribute-wiring"][wiring]], "oracles": ORACLES, "clause4": True,
-            "cfg": {"flavour": "inc", "salt": 0, "genclass": ["plain", "journal", "duck"][(index // 4) % 3]}, "gens": 2, "fs": {},
+            "cfg": {"flavour": "inc", "salt": 0, "genclass": ["plain", "journal", "duck", "own"][(index // 4) % 4]}, "gens": 2, "fs": {},
             "tasks": [{"parsers": parsers, "matchers": [], "compilers": compilers, "ops": ops}]}
 
 
@@ -257,7 +257,7 @@ def gen_hist(rng):
     task, labels = _id_task(rng, list(range(ngens)), files, "t0", rng.randint(2, 12), False)
     return {"scenario": "hist", "prop": "C11", "labels": labels, "oracles": ORACLES,
             "cfg": {"flavour": rng.choice(["inc", "inc", "opaque"]), "salt": rng.getrandbits(32), "chunk_max": rng.choice([0, 0, 3]), "fs_seed": rng.getrandbits(30),
-                    "drop": rng.random() < 0.5, "genclass": rng.choice(["plain", "plain", "journal", "duck"])},
+                    "drop": rng.random() < 0.5, "genclass": rng.choice(["plain", "plain", "journal", "duck", "own"])},
             "gens": ngens, "fs": {"files": files}, "tasks": [task]}
 
 
@@ -272,7 +272,7 @@ def gen_inter(rng):
         labels.append(lb)
     spec = {"scenario": "inter", "prop": "C11", "labels": labels, "oracles": ORACLES, "force_kernel": True,
             "cfg": {"flavour": rng.choice(["inc", "inc", "opaque"]), "salt": rng.getrandbits(32), "chunk_max": 0, "fs_seed": 1,
-                    "policy": POLICIES[rng.randrange(len(POLICIES))], "sched_seed": rng.getrandbits(32), "genclass": rng.choice(["plain", "plain", "journal", "duck"])},
+                    "policy": POLICIES[rng.randrange(len(POLICIES))], "sched_seed": rng.getrandbits(32), "genclass": rng.choice(["plain", "plain", "journal", "duck", "own"])},
             "gens": ngens, "fs": {"files": files}, "tasks": tasks}
     if rng.random() < 0.1:
         victim = rng.randrange(ntasks)
